@@ -62,7 +62,7 @@ CHECKS = {
             "(opened/failed/never), inbound substreams, force-close and keep-alive downgrades; every protocol's TransportService stream must match "
             "(Established (SubstreamOpened|SubstreamOpenFailure)* Closed)* per peer, ids are never reused across protocols, every answered request yields exactly "
             "one correctly routed event, requests are accepted while connected, and the manager never reports the peer closed before a protocol saw the close.",
-            "Scripted connections mirror TcpConnection::start(); connection events are judged by a reference model over an order log of the reports sent and the events emitted; a directed scenario (full protocol channel) decides 'protocols before the manager'. Node level: open storms of 40-420 requests on real nodes with a remote stalled by the proxy: every accepted request answered exactly once unless the peer is reported closed.",
+            "Scripted connections mirror TcpConnection::start(); connection events are judged by a reference model over an order log of the reports sent and the events emitted; a directed scenario (full protocol channel) decides 'protocols before the manager'. Node level: open storms of 40-420 requests on real nodes with a remote stalled by the proxy: every accepted request answered exactly once unless the peer is reported closed. Directed real-time scenarios keep two overlapping connections alive across a keep-alive expiry and close the primary first; a panic inside litep2p under a legal history is reported; both build profiles run in the quick tier.",
             "DESIGN.md §3 C08, §11"),
     "C09": ("exploration",
             "close-instant window monitor on scripted connections in real time with 20/60 ms keep-alive timeouts (layer a; TransportService timers read std::time::Instant, so virtual time cannot be used)",
